@@ -198,6 +198,13 @@ def run_case(case, ctx):
                 below = cls_at(L * (1 - eps))[k]
                 above = cls_at(L * (1 + eps))[k]
                 ok = below >= level * (1 - eta) and above <= level * (1 + eta)
+                if not ok:
+                    # a curve made of fits is not exactly monotone (neighbouring mu values can end in different
+                    # local optima of a multi-nuisance model): the limit itself evaluating to the level is accepted
+                    at_l = cls_at(L)[k]
+                    if abs(at_l - level) <= eta * level:
+                        ok = True
+                        ctx.count("limit_is_a_root_of_a_locally_non_monotone_curve", 1)
                 ctx.err("bracket", 0.0 if ok else float("inf"))
                 if not ok:
                     which = "default_level_0.05_used" if (below >= 0.05 * (1 - eta) and above <= 0.05 * (1 + eta)) else "not_a_root"
